@@ -1,6 +1,7 @@
 -- FAMILIES: mmri=TF.Drv.MmrIndex.mmri
 import TF.Drv.Proto
 import TF.Model.MmrIndex
+import TF.Gen.MmrLoops
 import TF.Spec.MmrIndex
 /-!
 driver handler for the family `mmri` (C16): one op per public function of `shared_basic.rs` / `shared_advanced.rs`,
@@ -19,6 +20,12 @@ def okPair (p : Nat × Nat) : String := s!"ok:({p.1};{p.2})"
 def skip : String := "skip"
 def guard (ok : Bool) (r : String) : String := if ok then r else skip
 def diverge : String := "diverge"
+
+/-- the hand model's value next to the value of the definition **regenerated from source** (`TF.Gen.Loops`, written by
+    tools/rs2lean_loops.py): when they differ the difference is printed instead of the value, so a translator bug (or a
+    hand model that drifted from the code) shows up as a disagreement with the implementation on the unchanged tree -/
+def both {α : Type} [BEq α] (gen model : α) (fmt : α → String) : String :=
+  if gen == model then fmt model else "GEN-MISMATCH gen=" ++ fmt gen ++ " model=" ++ fmt model
 
 def fmtOptList : Option (List Nat) → String
   | some l => "some:" ++ fmtList l
@@ -56,24 +63,29 @@ def mmri : Handler
   | "right_sibling", [.nat n, .nat h] => guard (u64? n && right_sibling_ok n h) (okN (right_sibling n h))
   | "num_nodes", [.nat n] => guard (u64? n && num_leafs_to_num_nodes_ok n) (okN (num_leafs_to_num_nodes n))
   | "rll_own", [.nat n] =>
-      guard (u64? n && 1 ≤ n) (match right_lineage_length_and_own_height n with | some p => okPair p | none => diverge)
+      guard (u64? n && 1 ≤ n) (both (Loops.right_lineage_length_and_own_height n) (right_lineage_length_and_own_height n)
+        fun | some p => okPair p | none => diverge)
   | "rll_node", [.nat n] =>
-      guard (u64? n && 1 ≤ n) (match right_lineage_length_from_node_index n with | some r => okN r | none => diverge)
+      guard (u64? n && 1 ≤ n) (both (Loops.right_lineage_length_from_node_index n) (right_lineage_length_from_node_index n)
+        fun | some r => okN r | none => diverge)
   | "parent", [.nat n] =>
-      guard (1 ≤ n && n < 18446744073709551615) (match parent n with | some r => okN r | none => diverge)
+      guard (1 ≤ n && n < 18446744073709551615) (both (Loops.parent n) (parent n) fun | some r => okN r | none => diverge)
   | "added", [.nat c] =>
-      guard (c < 9223372036854775808) (match node_indices_added_by_append c with | some l => "ok:" ++ fmtList l | none => diverge)
+      guard (c < 9223372036854775808) (both (Loops.node_indices_added_by_append c) (node_indices_added_by_append c)
+        fun | some l => "ok:" ++ fmtList l | none => diverge)
   | "auth", [.nat s, .nat p, .nat c] =>
       guard (1 ≤ s && u64? s && u64? p && c < 18446744073709551615)
-        (match get_authentication_path_node_indices s p c with | some r => "ok:" ++ fmtOptList r | none => diverge)
-  | "peak_heights", [.nat c] => guard (u64? c) ("ok:" ++ fmtList (get_peak_heights c))
+        (both (Loops.get_authentication_path_node_indices s p c) (get_authentication_path_node_indices s p c)
+          fun | some r => "ok:" ++ fmtOptList r | none => diverge)
+  | "peak_heights", [.nat c] => guard (u64? c) (both (Loops.get_peak_heights c) (get_peak_heights c) fun l => "ok:" ++ fmtList l)
   | "peaks", [.nat c] =>
       guard (c < 9223372036854775808)
-        (match get_peak_heights_and_peak_node_indices c with
-         | some (hs, is) => s!"ok:{fmtList hs} {fmtList is}"
-         | none => diverge)
+        (both (Loops.get_peak_heights_and_peak_node_indices c) (get_peak_heights_and_peak_node_indices c)
+          fun | some (hs, is) => s!"ok:{fmtList hs} {fmtList is}"
+              | none => diverge)
   | "n2l", [.nat n] =>
-      guard (u64? n && 1 ≤ n) (match node_index_to_leaf_index n with | some r => "ok:" ++ fmtOptNat r | none => diverge)
+      guard (u64? n && 1 ≤ n) (both (Loops.node_index_to_leaf_index n) (node_index_to_leaf_index n)
+        fun | some r => "ok:" ++ fmtOptNat r | none => diverge)
   | "forest", [.nat n] => some (forestTable n)
   | _, _ => none
 
